@@ -164,8 +164,9 @@ theorem aggregate_frames (clean : Str → Str) (p : Profile) (o : GOpts) (g : Gr
   | some f => exact framesOf_aggregate clean p o f s
 
 /-- per granularity, which fields can distinguish two entries: `functions` entries carry no address,
-file, line or column; `filefunctions` no address, line, column; `files` no address, name, line,
-column; `lines` no address (and no column unless `showcolumns`); with `noinlines` every location
+file, line or column; `filefunctions` no address, line, column; `files` no address, name, start
+line (so one source file is ONE entry however many functions with different start lines it holds),
+line, column; `lines` no address (and no column unless `showcolumns`); with `noinlines` every location
 contributes exactly one entry. -/
 theorem granularity_identity (clean : Str → Str) (p : Profile) (o : GOpts) (g : Granularity) (noInlines showColumns : Bool)
     (f : AggFlags) (hf : aggFlags g noInlines showColumns = some f) (s : Sample) (fs : List NodeInfo)
@@ -173,7 +174,7 @@ theorem granularity_identity (clean : Str → Str) (p : Profile) (o : GOpts) (g 
     (∀ ni ∈ fs,
       (g = .functions → ni.address = 0 ∧ ni.file = [] ∧ ni.lineno = 0 ∧ ni.columnno = 0) ∧
       (g = .filefunctions → ni.address = 0 ∧ ni.lineno = 0 ∧ ni.columnno = 0) ∧
-      (g = .files → ni.address = 0 ∧ ni.name = [] ∧ ni.origName = [] ∧ ni.lineno = 0 ∧ ni.columnno = 0) ∧
+      (g = .files → ni.address = 0 ∧ ni.name = [] ∧ ni.origName = [] ∧ ni.startLine = 0 ∧ ni.lineno = 0 ∧ ni.columnno = 0) ∧
       (g = .lines → ni.address = 0 ∧ (showColumns = false → ni.columnno = 0))) ∧
     (noInlines = true → fs.length = s.locationIDs.length) := by
   constructor
@@ -192,7 +193,7 @@ theorem granularity_identity (clean : Str → Str) (p : Profile) (o : GOpts) (g 
     · rintro rfl
       simp only [aggFlags, Option.some.injEq] at hf
       subst hf
-      exact ⟨ha rfl, (hfn rfl).1, (hfn rfl).2, (hl rfl).1, (hl rfl).2⟩
+      exact ⟨ha rfl, (hfn rfl).1, (hfn rfl).2.1, (hfn rfl).2.2, (hl rfl).1, (hl rfl).2⟩
     · rintro rfl
       simp only [aggFlags, Option.some.injEq] at hf
       subst hf
@@ -214,5 +215,15 @@ example :
       some [{ name := [102], origName := [], address := 0, file := [], startLine := 0, lineno := 0, columnno := 0, objfile := [] }] ∧
     (framesOf id (aggregateG p .lines false false) {} s).map (fun fs => fs.map (fun n => (n.name, n.lineno, n.columnno))) =
       some [([102], 20, 0), ([103], 10, 0)] := by decide
+
+-- non-vacuity (files granularity): two functions of the same file with different start lines are ONE entry
+example :
+    let fns : List Function := [{ id := 1, name := [102], systemName := [102], filename := [47, 97], startLine := 3 },
+                                { id := 2, name := [103], systemName := [103], filename := [47, 97], startLine := 70 }]
+    let l1 : Location := { id := 1, mappingID := 0, address := 4096, lines := [{ functionID := 1, line := 10, column := 0 }], isFolded := false }
+    let l2 : Location := { id := 2, mappingID := 0, address := 8192, lines := [{ functionID := 2, line := 80, column := 0 }], isFolded := false }
+    let s : Sample := { locationIDs := [1, 2], values := [5], label := [], numLabel := [], numUnit := [] }
+    let p : Profile := { (default : Profile) with sampleType := [⟨[99], []⟩], samples := [s], locations := [l1, l2], functions := fns }
+    p.Valid ∧ (framesOf id (aggregateG p .files false false) {} s).map (fun fs => fs.eraseDups.length) = some 1 := by decide
 
 end PV.Props.C04
